@@ -49,7 +49,7 @@ def paramSamples (e : Box) (vars : List Nat) : List (List Rat) :=
   all.take 27
 
 /-- sample points of a box for refutations: corners (dimension ≤ 4), midpoint, and a few dyadic points -/
-def boxSamples (b : Box) : List (List Rat) :=
+def solverBoxSamples (b : Box) : List (List Rat) :=
   let ends : List (List Rat) := b.map fun I =>
     match I with
     | .mk (.fin a) (.fin c) => if a == c then [a] else [a, c, (a + c) / 2, (3 * a + c) / 4, (a + 3 * c) / 4]
@@ -64,7 +64,7 @@ def boxSamples (b : Box) : List (List Rat) :=
 
 /-- an exactly evaluated point of the box that violates a constraint (the box is not inner) -/
 def innerRefuted (cs : List ((List Dag × Dag) × String)) (b : Box) : Option (List Rat) :=
-  (boxSamples b).find? fun p => Verdict.innerRefutedBy cs b p
+  (solverBoxSamples b).find? fun p => Verdict.innerRefutedBy cs b p
 
 /-- every box of a paving with its verdict (C18, resumed search) -/
 def parseItems (s : String) : Option (List Item) :=
